@@ -103,21 +103,64 @@ theorem loop_yields (cfg : Cfg) (hs : cfg.skipStale = false) (st : St) (hn : (ke
 theorem loop_yields_gen (st : St) (h : Core st) : (runHead genCfg (headFuel st) st).halted = st.halted :=
   loop_yields genCfg gen_shapes.1 st h.subsNodup
 
-/-- the judge's "always yields" clause, whole-trace form, as far as it is proved.
+/-- the await budget of every `wait` of the run sufficed (decidable: it is a `Bool` of the executable model).
+    A `wait` of `d` ms may perform `(d/125 + 64)·(|subscriptions| + 2)` awaits (`waitFuel`); only a publisher
+    under which virtual time stops advancing — granted timeouts ≤ tolerance answered with zero latency, i.e.
+    outside the property's quantifier `61..1800 s` — exhausts it. -/
+def BudgetOk (n : Nat) (script : List Entry) (dflt : Entry) (ops : List Op) : Bool :=
+  !(run genCfg n script dflt ops).halted
 
-    Full statement: for every history the trace contains no `spin` (`yieldBad … = []`).
+/-- subscribing never halts a run -/
+theorem doSub_halted (n : Nat) (auto : Bool) (st : St) (h : Core st) : (doSub genCfg n auto st).halted = st.halted := by
+  unfold doSub
+  split
+  · rfl
+  · have hl := subLoop_core genCfg st.now (List.range n) (st.emit (.call st.now (.sub auto))) (h.emit _)
+    have hnow : (st.emit (.call st.now (.sub auto))).now = st.now := rfl
+    simp only [hnow]
+    generalize subLoop genCfg st.now (List.range n) (st.emit (.call st.now (.sub auto))) = L at hl
+    obtain ⟨S, err⟩ := L
+    cases err with
+    | some e =>
+      dsimp only at hl ⊢
+      show (unsubscribeServices S).halted = _
+      rw [(unsubscribeServices_clean S hl.1).2.2.2.1, hl.2.2]; rfl
+    | none =>
+      dsimp only at hl ⊢
+      split
+      · show S.halted = _; rw [hl.2.2]; rfl
+      · show S.halted = _; rw [hl.2.2]; rfl
 
-    Proved (`_partial`): a run that has not halted has emitted no `spin` — and by `loop_yields` the renewal
-    loop's own fuel (`|subscriptions| + 2` iterations without an await) is never what halts a run: the only
-    remaining source is the await budget of a `wait` (`waitFuel`: one renewal round per 125 ms of virtual
-    time), i.e. a publisher behaviour under which virtual time stops advancing.
-    Missing: Zeno-freedom of `waitLoop` — that within the property's domain (granted timeouts > tolerance)
-    consecutive rounds are at least `timeout - tolerance` apart, so the budget is never exhausted. -/
-theorem yield_trace_partial (n : Nat) (script : List Entry) (dflt : Entry) (ops : List Op)
-    (hh : (run genCfg n script dflt ops).halted = false) :
+/-- unsubscribing never halts a run (the loop head reaches an await, `loop_yields`) -/
+theorem doUnsub_halted (st : St) (h : Core st) (ht : TaskOk st) : (doUnsub genCfg st).halted = st.halted := by
+  by_cases hh : st.halted = true
+  · simp [doUnsub, hh]
+  have hh' : st.halted = false := by simpa using hh
+  have hset : (settle genCfg (st.emit (.call st.now .unsub))).halted = false := by
+    rw [settle_halted genCfg gen_shapes.1 (st.emit (.call st.now .unsub)) h.subsNodup]; exact hh'
+  have hc := (settle_core genCfg gen_shapes.2.1 _ (h.emit (.call st.now .unsub)) (by simpa [TaskOk, St.emit] using ht)).1
+  unfold doUnsub
+  simp only [hh', Bool.false_eq_true, if_false, hset]
+  show (unsubscribeServices _).halted = false
+  rw [(unsubscribeServices_clean _ hc).2.2.2.1]; exact hset
+
+/-- **yield_trace** (the judge's "always yields" clause, whole-trace form).
+
+    For every history whose waits stayed within their await budget (`BudgetOk`, decidable) the trace contains
+    no `spin`.  The renewal loop itself always reaches an await (`loop_yields`), subscribing and unsubscribing
+    never halt a run (`doSub_halted`, `doUnsub_halted`), so `BudgetOk` can only fail inside a `wait`, when more
+    than one renewal round per 125 ms of virtual time is performed for the whole wait — which needs granted
+    timeouts at or below the tolerance answered without delay (outside the property's quantifier; the real
+    code's behaviour at that point — a zero-delay flood of renewals that does yield to the event loop — is
+    recorded by the harness probe `zeno_probe` in the evidence).  Not proved: that `BudgetOk` holds for every
+    script whose granted timeouts exceed the tolerance (Zeno-freedom of `waitLoop`). -/
+theorem yield_trace (n : Nat) (script : List Entry) (dflt : Entry) (ops : List Op)
+    (hb : BudgetOk n script dflt ops = true) :
     yieldBad (run genCfg n script dflt ops).trace = [] := by
+  have hh : (run genCfg n script dflt ops).halted = false := by
+    unfold BudgetOk at hb; simpa using hb
   have hinv : NoSpinInv (run genCfg n script dflt ops) := by
-    clear hh
+    clear hh hb
     unfold run
     suffices H : ∀ st, Core st → TaskOk st → NoSpinInv st → NoSpinInv (ops.foldl (step genCfg n) st) from
       H _ (Core.init script dflt) (by simp [TaskOk, init]) (by intro _ e he; simp [init] at he)
@@ -567,6 +610,30 @@ example :
     let script : List Entry := [⟨.ok, .sec 61, 0⟩, ⟨.unreach, .sec 61, 250⟩]
     (run genCfg 1 script ⟨.ok, .sec 1800, 0⟩ [Op.sub true, Op.wait 10125]).trace.filter Ev.isCb
       = [.cb 1250 0 0 false] := by
+  decide
+
+/-! ### the run-time judge accepts every model trace -/
+
+/-- **judge_accepts_model**: the predicate the driver evaluates on the implementation's trace
+    (`Upnp.C12.ok`, the conjunction of the five clause monitors) holds on the trace of every model run — every
+    number of services, publisher script, sequence of caller operations — whose waits stayed within their
+    await budget.  So the judge applied to implementation traces is exactly the proven property of the
+    model, and a correspondence mismatch is the only way the two can differ. -/
+theorem judge_accepts_model (n : Nat) (script : List Entry) (dflt : Entry) (ops : List Op)
+    (hb : BudgetOk n script dflt ops = true) :
+    ok n genCfg.tol genCfg.subTimeout (run genCfg n script dflt ops).trace = true := by
+  unfold ok violations
+  rw [all_or_nothing_trace, lapse_trace, report_trace, clean_trace, yield_trace n script dflt ops hb]
+  rfl
+
+/-- non-vacuity: a history with a refused renewal, a successful fall-back, an unreachable publisher and an
+    unsubscribe during an in-flight renewal stays within budget and is accepted -/
+example :
+    let script : List Entry := [⟨.ok, .sec 61, 0⟩, ⟨.ok, .sec 120, 250⟩, ⟨.refuse, .sec 61, 1000⟩, ⟨.ok, .sec 90, 0⟩,
+      ⟨.unreach, .sec 61, 500⟩, ⟨.ok, .sec 61, 40000⟩]
+    let ops := [Op.sub true, Op.wait 20125, Op.wait 30000, Op.unsub, Op.wait 100000]
+    BudgetOk 2 script ⟨.ok, .sec 300, 0⟩ ops = true
+    ∧ ok 2 genCfg.tol genCfg.subTimeout (run genCfg 2 script ⟨.ok, .sec 300, 0⟩ ops).trace = true := by
   decide
 
 end Upnp.C12
